@@ -226,6 +226,8 @@ struct Plan {
     pause_every: u64,
     /// PDUs queued before each flush (several PDUs can then share a TLS record)
     batch: usize,
+    /// the PDU that ends the session is queued before the last flush (it can share a TLS record with bitmaps)
+    end_same_record: bool,
     gui_iterations: usize,
 }
 
@@ -245,7 +247,7 @@ fn scenario(ctxrc: SharedCtx, report: Rc<RefCell<Report>>) {
         let mut net = gen_benign_net(&mut ctx);
         net.eager = 0;
         let packing = match ctx.choose("packing", 4) { 0 => Packing::OnePerRecord, 1 => Packing::Coalesce, 2 => Packing::Split, _ => Packing::Mixed };
-        let n = 1 + ctx.choose("n_pdus", 30) as usize;
+        let n = if ctx.chance("many_pdus", 1, 4) { 20 + ctx.choose("n_pdus_many", 41) as usize } else { 1 + ctx.choose("n_pdus", 30) as usize };
         let mut pdus = Vec::new();
         for _ in 0..n {
             let (u, r) = simcore::scen::c10::gen_fastpath_pdu(&mut ctx, 300, true);
@@ -255,7 +257,7 @@ fn scenario(ctxrc: SharedCtx, report: Rc<RefCell<Report>>) {
         let end = *ctx.pick("end_mode", &[EndMode::None, EndMode::Ultimatum, EndMode::CloseNotifyFin, EndMode::FinWithoutCloseNotify, EndMode::Rst, EndMode::UndecodableRdpError, EndMode::UndecodableIoError, EndMode::None]);
         let end_after = ctx.choose("end_after", n as u64 + 1) as usize;
         let end_inside = matches!(end, EndMode::CloseNotifyFin | EndMode::FinWithoutCloseNotify | EndMode::Rst) && ctx.chance("end_inside_pdu", 1, 4);
-        let plan = Plan { pdus, end, end_after: if end == EndMode::None { n } else { end_after }, end_inside, pause_every: 1 + ctx.choose("pause_every", 4), batch: 1 + ctx.choose("batch", 4) as usize, gui_iterations: 40 + ctx.choose("gui_iterations", 200) as usize };
+        let plan = Plan { pdus, end, end_after: if end == EndMode::None { n } else { end_after }, end_inside, pause_every: 1 + ctx.choose("pause_every", 4), batch: if ctx.chance("big_batch", 1, 4) { 5 + ctx.choose("batch_big", 56) as usize } else { 1 + ctx.choose("batch", 4) as usize }, end_same_record: ctx.chance("end_in_same_record", 1, 2), gui_iterations: 40 + ctx.choose("gui_iterations", 200) as usize };
         ctx.key_str(&format!("{:?}|{:?}|{}|{}|{:?}|{:?}", end, packing, plan.end_after.min(3), end_inside, net.read_mode, cfg.nla));
         ctx.step_budget = 2_000_000;
         (cfg, params, net, packing, plan)
@@ -329,10 +331,10 @@ fn scenario(ctxrc: SharedCtx, report: Rc<RefCell<Report>>) {
     let ended = Arc::new(AtomicBool::new(false));
     let dd = driver_done.clone();
     let en = ended.clone();
-    let plan_box = SendBox((plan.pdus.clone(), plan.end, plan.end_after, plan.end_inside, plan.pause_every, shared.clone(), plan.batch));
+    let plan_box = SendBox((plan.pdus.clone(), plan.end, plan.end_after, plan.end_inside, plan.pause_every, shared.clone(), plan.batch, plan.end_same_record));
     let driver = shuttle::thread::spawn(move || {
         let pb = plan_box;
-        let (pdus, end, end_after, end_inside, pause_every, sh, batch) = (&pb.0 .0, pb.0 .1, pb.0 .2, pb.0 .3, pb.0 .4, pb.0 .5.clone(), pb.0 .6);
+        let (pdus, end, end_after, end_inside, pause_every, sh, batch, end_same_record) = (&pb.0 .0, pb.0 .1, pb.0 .2, pb.0 .3, pb.0 .4, pb.0 .5.clone(), pb.0 .6, pb.0 .7);
         let (lock, cv) = { let s = sh.borrow(); (s.lock.clone(), s.cv.clone()) };
         for (k, (updates, _rects, long)) in pdus.iter().enumerate() {
             if k == end_after {
@@ -343,7 +345,9 @@ fn scenario(ctxrc: SharedCtx, report: Rc<RefCell<Report>>) {
                 let s = sh.borrow();
                 let mut srv = s.world.server.borrow_mut();
                 srv.send_fastpath(&format!("fast-path#{}", k), updates, *long);
-                if (k + 1) % batch == 0 || k + 1 == end_after.min(pdus.len()) {
+                let last = k + 1 == end_after.min(pdus.len());
+                let hold_for_end = last && end_same_record && !end_inside && matches!(end, EndMode::Ultimatum | EndMode::UndecodableRdpError | EndMode::UndecodableIoError);
+                if ((k + 1) % batch == 0 || last) && !hold_for_end {
                     srv.flush();
                     cv.notify_all();
                 }
@@ -443,6 +447,15 @@ fn scenario(ctxrc: SharedCtx, report: Rc<RefCell<Report>>) {
     // (3) order / content of what was forwarded
     if let Some((site, detail)) = prefix_mismatch(&received, &sent_before_end) {
         outcome = Some(viol("c20/forwarding", &site, detail));
+    }
+    // (3b) an in-band end (ultimatum, undecodable PDU, orderly or abrupt FIN) comes after the bitmaps on an ordered
+    // stream: once the thread has stopped, every rectangle sent before the end must have been forwarded
+    if outcome.is_none() && thread_gone && !plan.end_inside && matches!(plan.end, EndMode::Ultimatum | EndMode::UndecodableRdpError | EndMode::UndecodableIoError | EndMode::CloseNotifyFin | EndMode::FinWithoutCloseNotify) {
+        if received.len() < sent_before_end.len() {
+            outcome = Some(viol("c20/lost-before-end", &format!("{:?}", plan.end), format!("the session ended by {:?} after {} rectangles had been sent; the thread stopped having forwarded only {} of them", plan.end, sent_before_end.len(), received.len())));
+        } else {
+            ctxrc.borrow_mut().probe("all_forwarded_before_end");
+        }
     }
     // (1) keep-up at quiescence
     if outcome.is_none() && plan.end == EndMode::None {
